@@ -273,6 +273,9 @@ impl Ctx {
         record: bool,
     ) -> Option<Fail> {
         let mut obs = Obs::default();
+        if std::env::var("VERIF_TRACE").is_ok() {
+            eprintln!("TRACE {}", serde_json::to_string(case).unwrap_or_default());
+        }
         let r = guarded(|| check(case, &mut obs));
         let res = match r {
             Ok(r) => r,
@@ -353,6 +356,11 @@ impl Ctx {
         T: Debug + Clone + Serialize + Send,
         S: Strategy<Value = T>,
     {
+        if let Ok(only) = std::env::var("VERIF_PARTS") {
+            if !only.split(',').any(|p| p == part) {
+                return;
+            }
+        }
         let t0 = Instant::now();
         let shards = (self.threads as u32).min(cases.max(1)).max(1);
         let per = cases.div_ceil(shards);
